@@ -293,6 +293,9 @@ def run_job(job):
         rec['outcome'] = 'raise'
         return rec
     rec['outcome'] = 'raise' if rec['raised'] else classify(tab)
+    if rec['raised'] and rec['raised'] != 'Watchdog' and job.get('models'):
+        # the open branches whose models could not be built (root-cause attribution in C02)
+        rec['open_nodes'] = [[enc_node(n) for n in b] for b in tab.open if not has_quit(b)][:4]
     rec['premature'] = int(tab.premature)
     rec['steps'] = len(tab.history)
     rec['nbranches'] = len(tab)
